@@ -1,5 +1,10 @@
 import os, glob
 from verif import Q, REPO
+try:
+    import C16_t0_part as _t0
+except Exception as _e:   # the T0-native part needs encoders/t0tool.py
+    _t0 = None
+    _t0_err = repr(_e)
 
 META = {
  "level_text": "Bounded symbolic model checking (CBMC) of the arithmetic the property rests on, with buffer sizes symbolic over the whole size_t range (no size bound): br_ssl_engine_set_buffers_bidi/set_buffer against the documented minima and fragment-length rule; every real max_plaintext composed with the real make_ready_out (and br_ssl_engine_new_max_frag_len) against RFC-derived record overheads; every real check_length composed with the engine's real header admission (recvrec_ack). Partial: the byte-level encrypt/decrypt run is C01.b (small concrete buffers); the maximum-fragment-length extension's T0 sequencing (client asks for the matching length, server honours it in all records after its hello, mismatching echo refused, 'negotiated' indicator) and whole sessions are outside.",
@@ -62,7 +67,7 @@ def modes():
     return out
 
 
-def queries():
+def _base_queries():
     qs = []
     eng = "real src/ssl/ssl_engine.c; "
     qs.append(Q("setbuf-bidi", "C16_setbuf.c", defs=["-DPART=0"], unwind=8, native_units=NAT,
@@ -86,3 +91,25 @@ def queries():
     # not say that, the engine always holds 5 more bytes back (make_ready_out), and C16 only requires the record to fit the
     # output buffer, which the regular out-cbc-impl-* queries decide.  A check that demands more than the property is a false alarm.
     return qs
+
+
+def _base_queries():
+    qs = _base_queries()
+    if _t0 is not None:
+        qs = qs + _t0.queries()
+    return qs
+
+if _t0 is not None:
+    META["assumptions"] = list(META.get("assumptions", [])) + list(getattr(_t0, "ASSUMPTIONS", []))
+    META["mutants_tried"] = list(META.get("mutants_tried", [])) + list(getattr(_t0, "MUTANTS", []))
+
+
+def queries():
+    qs = _base_queries()
+    if _t0 is not None:
+        qs = qs + _t0.queries()
+    return qs
+
+if _t0 is not None:
+    META["assumptions"] = list(META.get("assumptions", [])) + list(getattr(_t0, "ASSUMPTIONS", []))
+    META["mutants_tried"] = list(META.get("mutants_tried", [])) + list(getattr(_t0, "MUTANTS", []))
